@@ -11,6 +11,29 @@ import (
 // zzSharedObjects builds the objects that goroutines would share: a template message with
 // variables of every kind and an ellipsis, a complete message, and their item trees.
 func zzSharedObjects() (tmpl, full *ast.DataMessage) {
+	tmpl, full, _ = zzSharedObjects3()
+	return
+}
+
+// zzBare are objects that were never put into a list or observed after their construction:
+// scalar items with variables on their own, and a template message around one.
+type zzBare struct {
+	items []ast.ItemNode
+	msg   *ast.DataMessage
+}
+
+func zzSharedObjects3() (tmpl, full *ast.DataMessage, bare *zzBare) {
+	tmpl, full = zzSharedObjects0()
+	c := int16(rt.Int8("c"))
+	bare = &zzBare{items: []ast.ItemNode{
+		ast.NewIntNode(2, c, "p", "q"), ast.NewUintNode(1, "p", 3), ast.NewFloatNode(8, "p", 2.5), ast.NewBinaryNode("p", 1, "q"),
+		ast.NewBooleanNode(true, "p"), ast.NewASCIINodeVariable("r", 0, -1), ast.NewListNode(ast.NewIntNode(1, 1), "p", "..."),
+	}}
+	bare.msg = ast.NewDataMessage("B", 6, 12, 0, "H<-E", ast.NewBinaryNode("ACKC6"))
+	return
+}
+
+func zzSharedObjects0() (tmpl, full *ast.DataMessage) {
 	c := int16(rt.Int8("c"))
 	s := rt.String("s", 2)
 	rt.Assume(rt.And(s[0] < 0x80, s[1] < 0x80))
@@ -66,8 +89,83 @@ func zzOp(op int, tmpl, full *ast.DataMessage) (string, []byte, []string) {
 		m, ok := hsms.Parse(cm.ToBytes())
 		rt.Assert(ok, "ops:decode-control-ok")
 		return m.Type(), m.ToBytes(), nil
+	case 10: // rejected inputs: everything the decoder returns, not only ok
+		out := ""
+		good := full.ToBytes()
+		for _, in := range [][]byte{good[:len(good)-1], {0, 0, 0, 10, 0, 1, 0, 0, 9, 0, 0, 0, 0, 1}, {0, 0, 0, 10, 0, 1, 0, 0, 0, 8, 0, 0, 0, 1}, {0, 0, 0, 11, 0xff, 0xff, 0, 0, 0, 5, 0, 0, 0, 1, 0}, {1, 2, 3}} {
+			m, ok := hsms.Parse(in)
+			out += rt.N("ok", rt.Ite(ok, 1, 0)) + rt.N("nil", rt.Ite(m == nil, 1, 0)) + " "
+		}
+		return out, nil, nil
+	case 11: // rejected SML text
+		msgs, errs, warns := Parse("S1F1 W <L <U1 300> <A 'x>\n.\nS2F1 <Q>.")
+		return rt.N("n", len(msgs)), nil, append(errs, warns...)
 	}
 	return "", nil, nil
+}
+
+// zzBareOp observes the bare objects: list variables, print, encode, size, derive.
+func zzBareOp(b *zzBare) (string, []byte, []string) {
+	out, vars := "", []string{}
+	var bytes []byte
+	for _, it := range b.items {
+		vars = append(vars, it.Variables()...)
+		out += it.(interface{ String() string }).String()
+		bytes = append(bytes, it.ToBytes()...)
+		bytes = append(bytes, byte(it.Size()))
+	}
+	vars = append(vars, b.msg.Variables()...)
+	bytes = append(bytes, b.msg.ToBytes()...)
+	out += b.msg.String()
+	l := ast.NewListNode(b.items[0], b.items[5])
+	out += l.(interface{ String() string }).String()
+	return out, bytes, vars
+}
+
+// ZZ_C17_bare: the write-set certificate for objects nobody has looked at yet (a value that
+// an observer computes on first use and keeps in the object would be stored here), and natively
+// 8 goroutines whose first observation of fresh objects overlaps.
+func ZZ_C17_bare() {
+	_, _, bare := zzSharedObjects3()
+	rt.MapOrder(rt.Param("order"))
+	roots := []interface{}{bare.msg}
+	for _, it := range bare.items {
+		roots = append(roots, it)
+	}
+	rt.Epoch(roots...)
+	s0, b0, v0 := zzBareOp(bare)
+	rt.Assert(rt.EpochEnd() == 0, "no-store-into-shared-memory")
+	rt.MapOrder(0)
+	for round := 0; round < rt.Iterations(20); round++ {
+		_, _, fresh := zzSharedObjects3()
+		rt.Concurrently(8, func() {
+			s, b, v := zzBareOp(fresh)
+			rt.Assert(rt.StrEq(s, s0), "concurrent-call-returns-its-own-result:string")
+			rt.Assert(rt.BytesEq(b, b0), "concurrent-call-returns-its-own-result:bytes")
+			rt.Assert(rt.StrsEq(v, v0), "concurrent-call-returns-its-own-result:list")
+		})
+	}
+	rt.Reach("end")
+}
+
+// ZZ_C17_history: a call returns what it returns alone whatever was called before it: operation
+// b first (nothing has run yet), then any operation a, then b again.
+func ZZ_C17_history() {
+	b := rt.Param("b")
+	txt := rt.String("s", 2)
+	rt.Assume(rt.And(txt[0] == 'a', txt[1] == 'b')) // the text content is not what is explored here
+	tmpl, full := zzSharedObjects()
+	s0, b0, v0 := zzOp(b, tmpl, full)
+	a := rt.Choice("a", 12)
+	// natively the pair is repeated (what a recycled object carries over depends on the runtime)
+	for r := 0; r < rt.Iterations(16); r++ {
+		zzOp(a, tmpl, full)
+		s1, b1, v1 := zzOp(b, tmpl, full)
+		rt.Assert(rt.StrEq(s1, s0), "history:same-result-after-other-calls:string")
+		rt.Assert(rt.BytesEq(b1, b0), "history:same-result-after-other-calls:bytes")
+		rt.Assert(rt.StrsEq(v1, v0), "history:same-result-after-other-calls:list")
+	}
+	rt.Reach("end")
 }
 
 // ZZ_C17_noninterference: a sufficient condition for safety under any schedule: each
